@@ -286,8 +286,8 @@ def c09(m, h, i, s):
     if r is None:
         return
     m.stats["checked"] += 1
-    transferred = "transferred=True" in h.label or "transferred=true" in h.label
-    m.hit(f"{s.kind}:{s.verb()}:{'role' if r else 'no-role'}:{'after' if transferred else 'before'}-transfer", h, i)
+    mode = h.label.rsplit("transferred=", 1)[-1].split()[0] if "transferred=" in h.label else "False"
+    m.hit(f"{s.kind}:{s.verb()}:{'role' if r else 'no-role'}:transfer-{mode}", h, i)
     if s.ok and not r:
         m.bad(h, i, "unauthorized_success", f"{s.kind} {s.verb()} succeeded for sender {s.sender()} without the role")
     if not s.ok and s.unchanged is False:
@@ -333,7 +333,14 @@ def c13(paths):
                     if a.kind == "eng" and a.verb() == "open":
                         pre = pos(a.pre, int(a.toks[4]), a.sender())
                         if pre is not None and pre["size"] != 0 and (pre["dir"] == "A") != (a.toks[5] == "B"):
-                            cls = "reverse_required_funds"
+                            # the recorded defect: the reversal re-opens and either needs fresh margin beyond the
+                            # released equity or releases less than the fees; when the refund covers both, the code
+                            # demands exactly the fees, which is what cw20 pulls, and the two must agree
+                            nt = b_.notes
+                            if "twin_need" in nt and int(nt["twin_need"]) <= 0 and int(nt["twin_released"]) >= int(nt["twin_fees"]):
+                                cls = "reverse_refund_covers"
+                            else:
+                                cls = "reverse_required_funds"
                     m.viol.append({"cls": cls, "desc": f"cw20 {'ok' if a.ok else 'err'} vs native {'ok' if b_.ok else 'err'} with the cw20 pull attached @ [{hn.label}] step {b_.n}: {b_.text}",
                                    "case": hn.case(idx_n)})
                     diverged = True
